@@ -44,6 +44,7 @@ inline int ad_conv_free_ctx(int &x, ad_ctx *c) { if (x == AD_THROWING_INPUT) thr
 struct ad_round {
     int adapter = 0, what = 0, timing = 0; // outcome: FA_VALUE / FA_EXC / FA_DROP
     bool conv_throws = false;
+    bool in_coroutine_mode = false; // the adapter is registered while a ready queue is installed (as from inside a running coroutine)
     std::optional<cocls::promise<int>> src_prom;
     std::optional<cocls::promise<void>> src_prom_void;
     std::optional<cocls::promise<tracked>> src_prom_tracked;
@@ -164,17 +165,20 @@ inline void adapter_matrix(const vf::opts &o, vf::report &R, vf::team &T, uint64
         bool is_conv = X.adapter >= AD_CONV_MEMBER && X.adapter != AD_CALL_FN_AWAITER;
         bool conv_from_int = X.adapter == AD_CONV_MEMBER || X.adapter == AD_CONV_MEMBER_PROMISE || X.adapter == AD_CONV_FREE || X.adapter == AD_CONV_FREE_CTX || X.adapter == AD_CONV_VIA_PROMISE;
         X.conv_throws = conv_from_int && X.what == FA_VALUE && r.chance(1, 4);
-        std::string desc = std::string(ad_name(X.adapter)) + " / " + fa_name(X.what) + (X.conv_throws ? " (converter throws)" : "") + " / " + at_name(X.timing);
+        X.in_coroutine_mode = (rn / (uint64_t)(AD_NKINDS * 3 * 3)) % 2 == 1;
+        std::string desc = std::string(X.in_coroutine_mode ? "[registered in coroutine mode] " : "") + ad_name(X.adapter) + " / " + fa_name(X.what) + (X.conv_throws ? " (converter throws)" : "") + " / " + at_name(X.timing);
         std::string plan = T.plan_by([&](int tid) -> std::pair<const int *, int> { return tid == 0 ? std::make_pair(sites0, 7) : std::make_pair(sites1, 7); }, r, 2);
         vf::set_crash_ctx(R.prop.c_str(), "adapter_matrix", o.seed, rn, (desc + "; " + plan).c_str());
         if (X.timing == AT_CONCURRENT) {
             T.round([&](int tid) {
                 vf::start_offset(rseed, tid);
-                if (tid == 0) ad_register(X);
+                if (tid == 0) { if (X.in_coroutine_mode) cocls::coro_queue::install_queue_and_call([&] { ad_register(X); }); else ad_register(X); }
                 else if (tid == 1) { while (!X.prom_ready.load(std::memory_order_acquire)) vf::cpu_relax(); ad_resolve(X); }
             });
         } else {
-            ad_register(X);
+            // in coroutine mode helper coroutines are only queued by the registration and start when the block ends: everything the
+            // registration was given (functors, arguments) must have been taken over by value by then
+            if (X.in_coroutine_mode) cocls::coro_queue::install_queue_and_call([&] { ad_register(X); }); else ad_register(X);
             if (X.timing == AT_LATER_SAME_THREAD) ad_resolve(X);
         }
         X.src_prom.reset(); X.src_prom_void.reset(); X.src_prom_tracked.reset();
